@@ -67,6 +67,7 @@ type c13LadnInd struct {
 }
 
 func c13SnssaiExec(c *core.Ctx, in c13Snssai) {
+	c.Distinct(core.Hash64("snssai", in.Sst, in.Sd), in.Sd != "")
 	fail := func(k, w string) { c.FailCase("snssai|"+k, w, "snssai", in) }
 	var enc, rej []byte
 	shared := false
@@ -127,6 +128,7 @@ func c13Element(contents []byte) *nasType.RequestedNSSAI {
 }
 
 func c13NssaiExec(c *core.Ctx, in c13Nssai) {
+	c.Distinct(core.Hash64("nssai", fmt.Sprint(in.Entries)), len(in.Entries) >= 2)
 	var contents []byte
 	for _, e := range in.Entries {
 		contents = append(contents, refconv.SnssaiEncodeLV(e.ref())...)
@@ -163,6 +165,7 @@ func c13NssaiExec(c *core.Ctx, in c13Nssai) {
 }
 
 func c13RawExec(c *core.Ctx, in c13Raw) {
+	c.Distinct(core.Hash64("raw", in.Hex), len(in.Hex) >= 6)
 	contents := unhex(in.Hex)
 	// reference verdict
 	refErr := false
@@ -188,6 +191,7 @@ func c13RawExec(c *core.Ctx, in c13Raw) {
 }
 
 func c13RejectedExec(c *core.Ctx, in c13Rejected) {
+	c.Distinct(core.Hash64("rej", fmt.Sprint(in.InPlmn, in.InTa)), len(in.InPlmn)+len(in.InTa) >= 2)
 	conv := func(l []c13Snssai) []models.Snssai {
 		var out []models.Snssai
 		for _, e := range l {
@@ -248,6 +252,7 @@ func c13SameTais(got []refconv.Tai, want []c13Tai) bool {
 }
 
 func c13TaiExec(c *core.Ctx, in c13TaiList) {
+	c.Distinct(core.Hash64("tai", fmt.Sprint(in.Tais)), len(in.Tais) >= 2)
 	var enc []byte
 	shared := false
 	pi := core.Try(func() {
@@ -270,6 +275,7 @@ func c13TaiExec(c *core.Ctx, in c13TaiList) {
 }
 
 func c13ServiceExec(c *core.Ctx, in c13Service) {
+	c.Distinct(core.Hash64("svc", in.Mcc, in.Mnc, in.Allowed, fmt.Sprint(in.Areas)), len(in.Areas) >= 2)
 	r := models.ServiceAreaRestriction{RestrictionType: models.RestrictionType_NOT_ALLOWED_AREAS}
 	if in.Allowed {
 		r.RestrictionType = models.RestrictionType_ALLOWED_AREAS
@@ -307,6 +313,7 @@ func c13ServiceExec(c *core.Ctx, in c13Service) {
 }
 
 func c13LadnExec(c *core.Ctx, in c13Ladn) {
+	c.Distinct(core.Hash64("ladn", in.Dnn, fmt.Sprint(in.Tais)), len(in.Dnn) > 0)
 	dnn := unhex(in.Dnn)
 	var enc []byte
 	shared := false
@@ -330,6 +337,7 @@ func c13LadnExec(c *core.Ctx, in c13Ladn) {
 }
 
 func c13LadnIndExec(c *core.Ctx, in c13LadnInd) {
+	c.Distinct(core.Hash64("ladnind", fmt.Sprint(in.Dnns)), len(in.Dnns) >= 2)
 	var dnns [][]byte
 	var want []string
 	for _, h := range in.Dnns {
@@ -631,6 +639,6 @@ func init() {
 			return "all 256 SST x 6 SD values; all requested-NSSAI lists of 1.." + n + " entries over a 5-entry alphabet covering every legal S-NSSAI length (1,2,4,5,8); every declared entry length 0..255 at every position of a 3-entry list with truncated tails (error half); rejected NSSAI with 0..4 entries per cause; all TAI lists of 1.." + t + " entries over an 8-entry alphabet (6 PLMNs: same, same MCC, same MNC, both different, and 2- vs 3-digit MNCs with equal numeric value) and 7..16 entries with every single-position deviation; service-area lists of 1..16 TACs in every composition over 1..3 areas, both restriction types; LADN entries and LADN-indication lists. Oracle: reference decoders/encoders written from TS 24.501 9.11.2.8, 9.11.3.37, 9.11.3.46, 9.11.3.9, 9.11.3.49, 9.11.3.29/30 (refconv) must recover exactly the input lists from the library's encoders, and the library's decoders must recover reference-encoded lists."
 		},
 		Assumptions: []string{"the DNN inside LADN is treated as opaque octets (only the length framing is asserted)"},
-		Finish:      func(m *core.Merged, cov map[string]any) { cov["distinct_nontrivial"] = m.Counters["evaluations"] },
+		Finish:      finishDistinct("distinct by list kind and contents; non-trivial = lists with at least two entries / areas, S-NSSAIs with an SD, LADNs with a non-empty DNN, raw contents of at least three octets"),
 	})
 }
